@@ -161,7 +161,13 @@ pub fn block(rng: &mut Rng, ctx: &Ctx, depth: usize, in_item: bool) -> GB {
         16 => {
             let cols = rng.range(1, 3);
             let rows = rng.range(1, 3);
-            GB::Table((0..rows + 1).map(|_| (0..cols).map(|_| if rng.chance(1, 4) { vec![GI::Link(words(rng, false, 1, 1), target(rng, ctx))] } else { words(rng, ctx.hostile, 1, 2) }).collect()).collect())
+            // cells: a link, a code span (alone or after a word), plain words
+            GB::Table((0..rows + 1).map(|_| (0..cols).map(|_| match rng.below(8) {
+                0 | 1 => vec![GI::Link(words(rng, false, 1, 1), target(rng, ctx))],
+                2 => vec![GI::CodeSpan(word(rng, false))],
+                3 => vec![GI::Word(word(rng, false)), GI::CodeSpan(word(rng, ctx.hostile))],
+                _ => words(rng, ctx.hostile, 1, 2),
+            }).collect()).collect())
         }
         17 => if in_item { GB::Para(inlines(rng, ctx, 0)) } else { GB::Heading(rng.range(1, 3) as u8, inlines(rng, ctx, 1)) },
         18 => if ctx.hostile { GB::Html(rng.pick(&["<div>\nhtml\n</div>", "<!-- c -->", "[ref]: http://x.io \"t\""]).to_string()) } else { GB::Para(inlines(rng, ctx, 0)) },
